@@ -44,11 +44,12 @@ impl Vector {
             start = v.len();
         }
 
-        let mut end = end.unwrap_or(v.len() - 1);
-        if end >= v.len() {
-            end = v.len() - 1;
-        }
+        // `end` is inclusive; past the last element it means "to the end"
+        let end = match end {
+            Some(end) if end < v.len() => end + 1,
+            _ => v.len(),
+        };
 
-        Vec::from(&v[start..=end])
+        Vec::from(&v[start..end])
     }
 }
